@@ -56,6 +56,11 @@ class Pipeline:
         Returns:
             Pipeline: The class instance.
         """
-        if cls._instance is None:
+        if cls is Pipeline:
+            # Decorator usage: every decorated function gets its own object. Sharing one object
+            # would make all decorated functions return the pipeline of the last decorated one.
+            return super(Pipeline, cls).__new__(cls)
+        # Inherited usage: one instance per subclass (not the instance of a base class).
+        if cls.__dict__.get("_instance") is None:
             cls._instance = super(Pipeline, cls).__new__(cls)
         return cls._instance
